@@ -1,6 +1,7 @@
 import ZapVerif.Model.Console
 import ZapVerif.Proofs.EntryWF
 import ZapVerif.Proofs.Spaced
+import ZapVerif.Gen.EntryMeta
 /-! # C16 — console encoder lines have the documented shape with a valid JSON context -/
 namespace ZapVerif.C16
 open ZapVerif ZapVerif.Esc ZapVerif.Json ZapVerif.Enc ZapVerif.Entry ZapVerif.Console
@@ -77,6 +78,26 @@ theorem ctx_valid (ctx : List (List Field)) (fields : List Field)
       some (J.obj (denO (ctx.flatMap addFields ++ addFields fields)), []) := by
   rw [ctx_is_json_ctx ctx fields hc hf]
   exact spaced_object_parses _ (WFo_append _ _ (ctx_good ctx hc).1 (addFields_good fields hf).1)
+
+/-- the guard structure of `consoleEncoder.EncodeEntry` / `writeContext` that `columns` and `consoleLine` mirror
+    (re-read from zapcore/console_encoder.go on every run) -/
+def expectedConsoleEntryGuards : List String := [
+  "0:c.TimeKey != \"\" && c.EncodeTime != nil && !ent.Time.IsZero()",
+  "0:c.LevelKey != \"\" && c.EncodeLevel != nil",
+  "0:ent.LoggerName != \"\" && c.NameKey != \"\"",
+  "1:nameEncoder == nil",
+  "0:ent.Caller.Defined",
+  "1:c.CallerKey != \"\" && c.EncodeCaller != nil",
+  "1:c.FunctionKey != \"\"",
+  "0:range arr.elems",
+  "1:i > 0",
+  "0:c.MessageKey != \"\"",
+  "0:ent.Stack != \"\" && c.StacktraceKey != \"\""
+]
+
+theorem console_guards_as_modelled :
+    Gen.consoleEntryGuards = expectedConsoleEntryGuards ∧ Gen.consoleContextGuards = ["0:context.buf.Len() == 0"] := by
+  decide
 
 /-- non-vacuity: a line with two columns, a message and one field -/
 example :
